@@ -170,7 +170,7 @@ class Request:
         """
         return self.parameter_storage_class(
             parse_qsl(
-                self.query_string.decode(),
+                self.query_string.decode(errors="werkzeug.url_quote"),
                 keep_blank_values=True,
                 errors="werkzeug.url_quote",
             )
